@@ -112,6 +112,9 @@ func safely(f func() error) (err error) {
 
 func init() { debug.SetPanicOnFault(true) }
 
+// keepHook, when set (Dims.CopyCheck), receives every value a copying Snapshot.Get returned.
+var keepHook func(what string, key int, b []byte)
+
 // CheckSnapshot reads every key of the universe by Get (copying and
 // not), one full ascending iteration, the child names, and recursively
 // every child, and compares with want.  paths lists the model paths.
@@ -174,6 +177,8 @@ func checkNode(ss moss.Snapshot, c *Concr, want Content, paths []string, p strin
 			}
 			if !sameBytes(got, exp) {
 				out = append(out, Mismatch{What: what + ".get", Path: p, Key: i + 1, Got: show(got), Want: show(exp)})
+			} else if !nc && keepHook != nil && p == "" {
+				keepHook(what+".get", i+1, got)
 			}
 		}
 	}
